@@ -8,11 +8,12 @@
     ff    Structure.failing_fast()
     mode  "construct" | "deser" | "nested"
     msg   str(exception) of the real run (absent when nothing was raised)
+    alnum the non-ASCII characters of msg for which Python's str.isalnum() holds (oracle answers)
   Output:
     invalid  supplied fields that `validate` rejects (signature order) — the property's right-hand side
     raised   what the construction model raises: kind, exception class, per site: top, path, shape,
-             anon, head (the text the message must begin with); for the real message(s): whether each
-             begins with its head, and `recoverable` of the rest (the exact side condition)
+             head (the text the message must begin with); for the real message(s): whether each
+             begins with its head and has the model's shape
     readable the helper model on `msg`: {"raises": true} | {"single": info} | {"many": [info]}
   The JSON codec oracle is instantiated with Lean.Data.Json here (trusted glue).
 -/
@@ -36,22 +37,23 @@ def loadsImpl (t : Text) : Loaded :=
   | .ok (.obj kvs) => .strs (kvs.toList.map fun kv => kv.1.toList)
   | .ok _ => .raises
 
-def codec : Codec :=
+/-- `alnum`: the non-ASCII characters of the case for which Python's `str.isalnum()` holds -/
+def codec (alnum : List Char) : Codec :=
   { dumps := fun ts => (Json.arr (ts.map fun t => Json.str (ofText t)).toArray).compress.toList
-    loads := loadsImpl }
+    loads := loadsImpl
+    word := fun c => asciiWord c || alnum.contains c }
 
 def optText : Option Text → Json
   | none => .null
   | some t => .str (ofText t)
 
 partial def infoToJson : Info → Json
-  | .leaf f v p o => Json.mkObj [("field", optText f), ("value", optText v), ("problem", .str (ofText p)),
-                                 ("opaque", .bool o)]
+  | .leaf f v p => Json.mkObj [("field", optText f), ("value", optText v), ("problem", .str (ofText p))]
   | .node f v subs => Json.mkObj [("field", optText f), ("value", optText v),
                                   ("subs", Json.arr (subs.map infoToJson).toArray)]
 
-def readableToJson (ff : Bool) (msg : String) : Json :=
-  match readable ff codec msg.toList with
+def readableToJson (alnum : List Char) (ff : Bool) (msg : String) : Json :=
+  match readable ff (codec alnum) msg.toList with
   | .error e => Json.mkObj [("raises", .str e)]
   | .ok (.single i) => Json.mkObj [("single", infoToJson i)]
   | .ok (.many is) => Json.mkObj [("many", Json.arr (is.map infoToJson).toArray)]
@@ -61,25 +63,23 @@ def shapeName : Shape → String
 
 /-- the text a site's message must begin with (class prefix included) -/
 def siteHead (cls : Text) (s : Site) : Text :=
-  if s.loc.anon then withClass (some cls) []
-  else withClass (some cls) (s.path ++ (':' :: ' ' :: (if s.loc.shape == .gotFirst then sGot else [])))
+  withClass (some cls) (s.path ++ (':' :: ' ' :: (if s.loc.shape == .gotFirst then sGot else [])))
 
 def isPrefix (p t : Text) : Bool := (dropPre p t).isSome
 
-/-- per (site, real message text): does the text begin with the head; is the rest recoverable -/
+/-- per (site, real message text): does the text begin with the head; does it have the shape -/
 def siteVsText (cls : Text) (s : Site) (t : Text) : Json :=
   let full := withClass (some cls) (s.path ++ [':', ' '])
   let rest := match dropPre full t with | some r => r | none => []
   Json.mkObj [("headOk", .bool (isPrefix (siteHead cls s) t)),
-              ("shapeOk", .bool (s.loc.anon || match s.loc.shape with
+              ("shapeOk", .bool (match s.loc.shape with
                 | .gotFirst => true
                 | .gotLast => (splitLast sSemiGot rest).isSome
-                | .plain => true)),
-              ("recoverable", .bool (!s.loc.anon && recoverable rest))]
+                | .plain => true))]
 
 def siteToJson (cls : Text) (s : Site) : Json :=
   Json.mkObj [("top", .str s.top), ("path", .str (ofText s.path)), ("shape", .str (shapeName s.loc.shape)),
-              ("anon", .bool s.loc.anon), ("cls", .str (errName s.cls)),
+              ("cls", .str (errName s.cls)),
               ("head", .str (ofText (siteHead cls s)))]
 
 def run (j : Json) : Except String Json := do
@@ -89,6 +89,7 @@ def run (j : Json) : Except String Json := do
   let ff ← optBool j "ff" true
   let mode ← (← j.getObjVal? "mode").getStr?
   let msg ← optStr j "msg"
+  let alnum := ((← optStr j "alnum").getD "").toList
   match decl with
   | .struct c fields _ =>
     let cls := c.name.toList
@@ -116,7 +117,7 @@ def run (j : Json) : Except String Json := do
                  ("mode", Json.str mode)]
     let rd := match msg with
       | none => []
-      | some m => [("readable", readableToJson ff m)]
+      | some m => [("readable", readableToJson alnum ff m)]
     pure (Json.mkObj (base ++ rd))
   | _ => throw "errors: cls is not a class declaration"
 
